@@ -875,7 +875,9 @@ ck.assumptions += [
     "gcc 12 places arguments and implements va_arg as the psABI prescribes (it is the reference caller)",
     "jcall/jret functions are outside the C ABI and not covered",
     "theorems are about the Lean models; the full code generator (RA, combiner) is only tested through the trampoline",
-    "alloca sizes below 2^32 (the variable form computes the size with a 32-bit lea)"]
+    "alloca sizes below 2^32 (the variable form computes the size with a 32-bit lea)",
+    "the first stack-argument word is 16-byte aligned (caller obeys the psABI): va_arg_builtin aligns the absolute "
+    "overflow address for long double, the model aligns the offset"]
 for b in ck.broken_ties[:8]:
     ck.log("broken tie:", json.dumps(b, default=str)[:600])
 try:
